@@ -50,6 +50,22 @@ def _laws(tier):
     return c, f, 'every law on list- and dict-backed sources of 0..7 (13) examples, full observation of both sides'
 
 
+def _mk(fn_name, bound):
+    def run(tier):
+        from harness import more_standins
+        c, f = getattr(more_standins, fn_name)(tier)
+        return c, f, bound
+    return run
+
+
+EXTRA_MORE = {
+    'C09': [('bounded-isolation', _mk('isolation', 'new/from_list in pickle, copy, wu mode and memory/disk cache; 7 access paths, miss and hit, nested in-place mutations'))],
+    'C10': [('bounded-cache-histories', _mk('cache_histories', 'all access histories of length 2 (3 thorough) over 17 operations on a 4-example cache with a freshly random upstream; memory threshold crossed after 0..4 stores'))],
+    'C14': [('bounded-catch', _mk('catch_epochs', 'sources of 0..7 examples, all failing subsets up to size 3, single type / tuple / subclass, values and items, two epochs, reshuffled upstream over 4 epochs, lazy/eager/FilterException selection'))],
+    'C15': [('bounded-split', _mk('split_exhaustive', 'all (n, k, i) with n <= 40 (300 thorough), k in [-1, n+2], shard indices {0, k-1, -1}'))],
+    'C18': [('bounded-sort-groupby', _mk('sort_group', 'all value sequences over {0,1,2} up to length 5 (7 thorough), reverse on/off, incomparable payloads, scalar and tuple group ids'))],
+}
+
 EXTRA = {'C16': [('bounded-laws', _laws)], 'C08': [('bounded-demand', _effects)], 'C17': [('bounded-bucket-iter', _bucket)], 'C12': [('bounded-shuffles', _shuffle)],
          'C13': [('bounded-seed-determinism', _shuffle)]}
 
@@ -94,7 +110,7 @@ def main():
                         'bound': 'source lengths 0..6 and the parameter grid of harness/scenarios.py',
                         'failures': (unexplained or fl)[:5],
                         'known_finding_cases': len(fl) - len(unexplained)})
-        for name, fn in EXTRA.get(a.prop, []):
+        for name, fn in EXTRA.get(a.prop, []) + EXTRA_MORE.get(a.prop, []):
             cases, fails, bound = fn(a.tier)
             out.append({'name': name, 'kind': 'bounded', 'cases': cases, 'bound': bound, 'failures': fails[:5],
                         'known_finding_cases': 0})
